@@ -834,6 +834,8 @@ def tamper_ops():
         'all:port-low-range': ('widen-if-port', lambda l: [s._replace(plo=0, phi=999) for s in l]),
         'all:port-high-range': ('widen-if-port', lambda l: [s._replace(plo=24, phi=65535) for s in l]),
         'all:port-subrange': ('widen-if-port', lambda l: [s._replace(plo=22, phi=24) for s in l]),
+        'all:proto-sctp': ('neutral', lambda l: [s._replace(proto=132) for s in l]),
+        'all:proto-gre': ('neutral', lambda l: [s._replace(proto=47) for s in l]),
         'port-any': ('widen-if-port', first(lambda s: s._replace(plo=0, phi=65535))),
         'port-hi+1': ('widen-if-port', first(lambda s: s._replace(phi=min(65535, s.phi + 1)))),
         'port-lo-1': ('widen-if-port', first(lambda s: s._replace(plo=max(0, s.plo - 1)))),
@@ -860,6 +862,8 @@ def tamper_cases():
                 out.append(('rekey', mode, 'req', op, side, False))
     for mode in ('transport', 'tunnel'):
         out.append(('stale', mode, 'res', 'other-childs-selectors', 'both', False))
+        for op in ('all:proto-sctp', 'all:proto-gre'):
+            out.append(('foreign-proto', mode, 'req', op, 'both', False))
     # an initiator that is not pyikev2 proposes port ranges inside the responder's any-port policy
     for exch in ('auth', 'new'):
         for mode in ('transport', 'tunnel'):
@@ -960,6 +964,53 @@ def stale_case(mode):
     return label, 'rejected' if not got else 'INSTALLED', viol
 
 
+def foreign_proto_case(mode, op):
+    """an initiator that is not pyikev2 narrows its request to an IP protocol the library has no name for (SCTP, GRE) inside
+    an any-protocol policy: the CHILD_SA is created with that protocol, and it can be rekeyed from either side with exactly
+    its selectors"""
+    ent = ('10.1.0.0/24', '10.2.0.0/24', 0, 0, 'any', mode)
+    a, b = entry_dicts(ent, ent)
+    w = S.new_world(S.base_confs(a_entry=a, b_entry=b))
+    A, B = w.endpoints['A'], w.endpoints['B']
+    label = 'foreign-proto,%s,%s' % (mode, op)
+    doc = dict(part='tamper', case=['foreign-proto', mode, 'req', op, 'both', False])
+    viol = []
+    w.step(acquire_event(ent, 'flow'))
+    for _ in range(2):
+        w.step(('deliver', w.net[0].id))
+    genuine = w.net[0]
+    data, changed = rewrite(genuine.data, A.controller.ike_sas[0].my_crypto, op, 'both', False)
+    w.step(('drop', genuine.id))
+    w.step(('inject', 'B', data, S.IP_A))
+    w.deliver_all()
+    if not alive(w):
+        return label, 'endpoint-died', viol
+    sa_a, sa_b = newsas(A), newsas(B)
+    want_proto = changed['tsi'][1][0].proto
+    if len(sa_a) != 2 or len(sa_b) != 2:
+        viol.append(('tamper-req:%s:not-established' % label, 'request narrowed to IP protocol %d inside an any-protocol policy: '
+                     'initiator issued %d NEWSA, responder %d' % (want_proto, len(sa_a), len(sa_b)), doc))
+        return label, 'refused', viol
+    for who, sas in (('initiator', sa_a), ('responder', sa_b)):
+        for req in sas:
+            if req['sel']['proto'] != want_proto:
+                viol.append(('tamper-req:%s:%s-installs-other-protocol' % (label, who), '%s installed IP protocol %d, negotiated %d'
+                             % (who, req['sel']['proto'], want_proto), doc))
+    for who in ('A', 'B'):
+        w2 = w.fork()
+        ep = w2.endpoints[who]
+        na, nb = len(w2.endpoints['A'].kernel.log), len(w2.endpoints['B'].kernel.log)
+        w2.step(('expire', who, sorted(ep.kernel.sad)[0][2], False))
+        w2.deliver_all()
+        new_a, new_b = newsas(w2.endpoints['A'], na), newsas(w2.endpoints['B'], nb)
+        for side, new, old in (('initiator', new_a, sa_a), ('responder', new_b, sa_b)):
+            if sorted(map(sa_key, new)) != sorted(map(sa_key, old)):
+                viol.append(('tamper-req:%s:rekey-by-%s:%s' % (label, who, 'refused' if not new else 'selectors-differ'),
+                             'rekey of the CHILD_SA (IP protocol %d) started by %s: %s installed %r, the replaced SAs had %r' % (
+                                 want_proto, who, side, sorted(map(sa_key, new)), sorted(map(sa_key, old))), doc))
+    return label, 'foreign-proto-ok' if not viol else 'foreign-proto-bad', viol
+
+
 def children(ep):
     return sum(len(s.child_sas) for s in ep.controller.ike_sas)
 
@@ -968,6 +1019,8 @@ def tamper_run(case):
     exch, mode, what, op, side, flip = case
     if exch == 'stale':
         return stale_case(mode)
+    if exch == 'foreign-proto':
+        return foreign_proto_case(mode, op)
     w = tamper_world(exch, mode)
     A, B = w.endpoints['A'], w.endpoints['B']
     label = '%s-%s,%s,%s@%s%s' % (exch, what, mode, op, side, ',mode-flip' if flip else '')
